@@ -3,10 +3,10 @@
 pid=$1; patch=$2; tier=${3:-quick}
 cd /repo || exit 9
 git diff --quiet || { echo "repo not clean"; exit 9; }
+trap 'git -C /repo checkout -- . ; rm -rf /dev/shm/seed-evid-$$' EXIT INT TERM HUP
 git apply "$patch" || { echo "patch does not apply"; exit 9; }
-VF_EVIDENCE_DIR=/dev/shm/seed-evid-$$ VF_REPLAY_DIR=/dev/shm/seed-replay-$$ /verif/check $pid --tier $tier
+VF_EVIDENCE_DIR=/dev/shm/seed-evid-$$ VF_REPLAY_DIR=/dev/shm/seed-replay-$$ timeout ${SEEDTEST_TIMEOUT:-1500} /verif/check $pid --tier $tier
 rc=$?
-git -C /repo checkout -- . 
-rm -rf /dev/shm/seed-evid-$$
+git -C /repo checkout -- .
 echo "seedtest rc=$rc (1 = detected)"
 exit $rc
